@@ -73,6 +73,12 @@ func (r *racResult) sample(s interface{}) {
 // fail records a violated clause (at most 4 per clause are kept in full).
 func (r *racResult) fail(clause string, input interface{}, observed, expected string) {
 	r.violCount[clause]++
+	if len(observed) > 1200 {
+		observed = observed[:1200] + "...(truncated)"
+	}
+	if len(expected) > 1200 {
+		expected = expected[:1200] + "...(truncated)"
+	}
 	if r.violCount[clause] <= 4 {
 		r.Violations = append(r.Violations, racViolation{clause, input, observed, expected})
 	}
